@@ -1,6 +1,5 @@
 // ---- azks_walk unit (C04): the per-epoch proof walk get_append_only_proof_helper against its mathematical description
 use vstd::future::FutureAdditionalSpecFns;
-use core::future::Future;
 use vstd::multiset::Multiset;
 pub mod akd_core {
     pub mod ecvrf { pub use crate::VrfError; }
@@ -32,32 +31,6 @@ impl<S: Database> Clone for StorageManager<S> {
     #[verifier::external_body]
     fn clone(&self) -> (r: Self)
         ensures db_of(&r) == db_of(self)
-    { unimplemented!() }
-}
-
-// ---- tokio task model: a spawned future runs to completion or the join reports an error; a joined value is the future's value
-pub mod tokio {
-    use super::*;
-    pub mod task {
-        use super::*;
-        #[verifier::external_body]
-        #[verifier::reject_recursive_types(T)]
-        pub struct JoinHandle<T> { _t: core::marker::PhantomData<T> }
-        #[verifier::external_body]
-        pub struct JoinError { _p: () }
-        impl JoinError {
-            #[verifier::external_body]
-            pub fn to_string(&self) -> String { unimplemented!() }
-        }
-        #[verifier::external]
-        impl<T> core::future::Future for JoinHandle<T> {
-            type Output = Result<T, JoinError>;
-            fn poll(self: core::pin::Pin<&mut Self>, cx: &mut core::task::Context<'_>) -> core::task::Poll<Self::Output> { unimplemented!() }
-        }
-    }
-    #[verifier::external_body]
-    pub fn spawn<F: Future>(f: F) -> (h: task::JoinHandle<F::Output>)
-        ensures h@ is Ok ==> f.awaited() && h@->Ok_0 == f@
     { unimplemented!() }
 }
 
